@@ -4,6 +4,7 @@ From Coq Require Import Lia.
 From SV Require Import Model.Analytic Model.AnalyticMulti Spec.AnalyticSpec Proofs.AnalyticSeq Proofs.AnalyticKey
   Proofs.AnalyticEngine Proofs.AnalyticQuery Proofs.AnalyticField Proofs.AnalyticMulti Proofs.AnalyticGated.
 From SV Require Import Model.AnalyticPath Spec.AnalyticPathSpec Proofs.AnalyticPath.
+From SV Require Import Spec.AnalyticEpochSpec Proofs.AnalyticEpoch Proofs.AnalyticPathEpoch.
 
 (* analytic_seq: lag / latest / had_changed / changed_col / acc_sum,count,avg,min,max -- for every call whose
    configuring arguments (offset, default, ignoreNull) are literals and for EVERY history of counted rows of a
@@ -295,3 +296,87 @@ Proof.
     intros r k Hr Hk. simpl in Hk. destruct Hk as [<-|[]].
     simpl in Hr. repeat (destruct Hr as [<-|Hr]; [vm_compute; reflexivity|]). contradiction.
 Qed.
+
+(* ======================================================================================================
+   Every history, the number of partitions above the cap included  (Spec/AnalyticEpochSpec.v)
+   ====================================================================================================== *)
+
+(* the engine of stream/analytic.go for every state machine plugged into it, every interleaving and EVERY number
+   of partitions: the result for a row is the machine applied to the counted rows of the current residency epoch
+   of ITS partition - the rows since which the partition has, at every moment, been among the cap most recently
+   used partitions (gepoch) -; a row failing WHEN repeats the last result of that epoch, the default when the
+   epoch is empty *)
+Theorem C14_engine_epoch :
+  forall (St Out : Type) (init : St) (apply : St -> arow -> St * Out) (dflt : Out)
+         (gate : arow -> bool) (pkey : arow -> bytes) (cap : nat) (h : list arow),
+  1 <= cap ->
+  snd (an_eng_run St Out init apply dflt gate pkey true cap (an_eng0 _ _) h) =
+  map_prefix (xgspec St Out init apply dflt gate pkey cap) h.
+Proof. exact engine_epoch. Qed.
+Print Assumptions C14_engine_epoch.
+
+(* the remembered last result is evicted WITH the state (the companion of C14_lru_restart): a row failing WHEN
+   whose partition is not among the cap most recently used ones gets the default - NULL, no columns for
+   changed_cols - whatever the partition had produced before it was evicted *)
+Theorem C14_evicted_forgets :
+  forall (St Out : Type) (init : St) (apply : St -> arow -> St * Out) (dflt : Out)
+         (gate : arow -> bool) (pkey : arow -> bytes) (cap : nat) (h : list arow) (r : arow),
+  1 <= cap -> gate r = false -> ~ In (pkey r) (firstn cap (recency gate pkey h)) ->
+  snd (an_eng_step St Out init apply dflt gate pkey true cap
+         (fst (an_eng_run St Out init apply dflt gate pkey true cap (an_eng0 _ _) h)) r) = dflt.
+Proof. exact evicted_forgets. Qed.
+Print Assumptions C14_evicted_forgets.
+
+(* one select item (or WHERE call) through its engine = its specification over the residency epoch, on every
+   history, with or without PARTITION BY *)
+Theorem C14_xfrun_gated : forall cap f h, an_fkind_wf (af_kind f) = true -> Forall row_ok h -> 1 <= cap ->
+  snd (an_frun cap f (an_eng0 _ _) h) = map_prefix (an_xgated_spec cap f) h.
+Proof. exact xfrun_gated. Qed.
+Print Assumptions C14_xfrun_gated.
+
+(* the model of EmitSync IS the declarative specification the driver judges the real output with on histories
+   whose partitions exceed the cap (an_xspec_query / an_xmspec_query / an_nxmspec) - no hypothesis on the number of
+   partitions -, for every query of the three families *)
+Theorem C14_sync_xspec : forall q h, query_wf q = true -> Forall row_ok h -> 1 <= aq_cap q ->
+  an_sync q h = an_xspec_query q h.
+Proof. exact sync_xspec. Qed.
+Print Assumptions C14_sync_xspec.
+
+Theorem C14_msync_xspec : forall q h, mquery_wf q = true -> Forall row_ok h -> 1 <= mq_cap q ->
+  an_msync q h = an_xmspec_query false q h.
+Proof. exact msync_xspec. Qed.
+Print Assumptions C14_msync_xspec.
+
+Theorem C14_nested_msync_xspec : forall q h, mquery_wf q = true -> Forall nrow_ok h -> 1 <= mq_cap q ->
+  an_nmsync q h = an_nxmspec true q h.
+Proof. exact nested_msync_xspec. Qed.
+Print Assumptions C14_nested_msync_xspec.
+
+Theorem C14_nested_msync_xstrict : forall q h, mquery_wf q = true -> Forall nrow_ok h -> no_fallback q h ->
+  1 <= mq_cap q -> an_nmsync q h = an_nxmspec false q h.
+Proof. exact nested_msync_xstrict. Qed.
+Print Assumptions C14_nested_msync_xstrict.
+
+(* within the cap nothing is ever evicted: there the specification of all histories is the one of
+   Spec/AnalyticSpec.v (every earlier counted row of the partition) *)
+Theorem C14_xspec_within_cap : forall q h, query_wf q = true -> Forall row_ok h -> 1 <= aq_cap q ->
+  an_within_cap q h = true -> an_xspec_query q h = an_spec_query q h.
+Proof. exact xspec_within_cap. Qed.
+Print Assumptions C14_xspec_within_cap.
+
+Theorem C14_xmspec_within_cap : forall q h, mquery_wf q = true -> Forall row_ok h -> 1 <= mq_cap q ->
+  an_mwithin_cap q h = true -> an_xmspec_query false q h = an_mspec_query false q h.
+Proof. exact xmspec_within_cap. Qed.
+Print Assumptions C14_xmspec_within_cap.
+
+(* non-vacuity and the clause evicted_partition_replays_stale_result: cap 2, acc_sum(v) OVER (PARTITION BY p WHEN
+   g > 0); A counted (10), A gated off (repeats 10), B, C - the third partition evicts A -, A gated off: NULL, not
+   the 10 computed from rows that went with the evicted state; A counted: 5, from scratch; A gated off: 5.
+   The history is NOT within the cap, and row 4 is the row the driver's classifier (an_xevicted) points at *)
+Theorem C14_evicted_witness :
+  query_wf xw_q = true /\ Forall row_ok xw_h /\ an_within_cap xw_q xw_h = false /\
+  an_sync xw_q xw_h = map Some [AOV (AVFlt 10); AOV (AVFlt 10); AOV (AVFlt 1); AOV (AVFlt 2);
+                                 AOV AVNull; AOV (AVFlt 5); AOV (AVFlt 5)] /\
+  an_xevicted xw_q xw_h = [false; false; false; false; true; false; false].
+Proof. exact evicted_witness. Qed.
+Print Assumptions C14_evicted_witness.
